@@ -76,6 +76,7 @@ def main():
                                     "wall_s": round(time.time() - t0, 1), "tail": out[-600:] if rc not in (0, 1) else ""}
             res["caught"] = any(c["exit"] == 1 and c["violations"] for c in res["checks"].values())
             results[sid] = res
+            print("# %s %s" % (sid, "CAUGHT" if res["caught"] else "MISSED"), file=sys.stderr, flush=True)
         finally:
             sh(["git", "-C", "/repo", "worktree", "remove", "--force", wt])
             shutil.rmtree(wt, ignore_errors=True)
